@@ -32,7 +32,8 @@ package main
 //	frames_unbounded_growth (proto, function, what) of reads without any size: ReadAll(conn),
 //	                        buffer writes / append inside a loop of Unpack or a helper
 //	frames_raw_read_landmarks  ordered: alloc:const|alloc:data, SetSize:returned|ignored,
-//	                        minus:returned|ignored in rawProto.readMessage
+//	                        minus(k|data):returned|ignored (k = literal subtrahend), read:buf|buf[:k]|buf[:data]
+//	                        (io.ReadFull / io.ReadAtLeast / Read and what they fill) in rawProto.readMessage
 //	frames_raw_minus_guard  the refusing condition of `minus` ($0,$1 = parameters, $d = $0 - $1)
 //	frames_readloop_landmarks  session.startReadAndHandle: `defer:recover` (a top-level defer of a
 //	                        function literal that calls recover()), `loop:ReadMessage`
@@ -897,11 +898,17 @@ func genFramesRaw(r *Repo, l *Lean) {
 				marks = append(marks, q+"alloc:make")
 			case cpLast(ch) == "SetSize":
 				marks = append(marks, q+"SetSize"+ret())
+			case cpEq(ch, "minus") && len(c.Args) == 2:
+				marks = append(marks, q+"minus("+frLitOrData(c.Args[1])+")"+ret())
 			case cpEq(ch, "minus"):
-				marks = append(marks, q+"minus"+ret())
+				marks = append(marks, q+"minus(?)"+ret())
+			case (cpEq(ch, "io", "ReadFull") || cpEq(ch, "io", "ReadAtLeast")) && len(c.Args) >= 2:
+				marks = append(marks, q+"read:"+frReadDst(c.Args[1]))
+			case cpLast(ch) == "Read" && len(c.Args) == 1:
+				marks = append(marks, q+"read:"+frReadDst(c.Args[0]))
 			}
 		})
-		l.StrList("frames_raw_read_landmarks", "rawProto.readMessage: buffer sizing calls and the checks between them (`?` = conditional)", marks)
+		l.StrList("frames_raw_read_landmarks", "rawProto.readMessage: buffer sizing calls, reads from the connection and the checks between them (`?` = conditional)", marks)
 	}
 	mn := p.Func("", "minus")
 	guard := []string{}
@@ -951,6 +958,34 @@ func genFramesRaw(r *Repo, l *Lean) {
 	} else {
 		l.StrList("frames_raw_minus_guard", "refusing conditions of socket.minus ($0, $1 = parameters, $d = $0 - $1)", guard)
 	}
+}
+
+// frLitOrData: an integer literal is itself, every other expression is "data".
+func frLitOrData(e ast.Expr) string {
+	for {
+		p, ok := e.(*ast.ParenExpr)
+		if !ok {
+			break
+		}
+		e = p.X
+	}
+	if b, ok := e.(*ast.BasicLit); ok && b.Kind == token.INT {
+		return b.Value
+	}
+	return "data"
+}
+
+// frReadDst classifies the destination of a read: the whole buffer (`buf`), its first k bytes for a
+// literal k (`buf[:k]`), its first n bytes for a computed n (`buf[:data]`), anything else (`other`).
+func frReadDst(e ast.Expr) string {
+	se, ok := e.(*ast.SliceExpr)
+	if !ok {
+		return "buf"
+	}
+	if se.Low != nil || se.Slice3 || se.High == nil {
+		return "other"
+	}
+	return "buf[:" + frLitOrData(se.High) + "]"
 }
 
 func genFramesReadLoop(r *Repo, l *Lean) {
